@@ -71,8 +71,10 @@ def _validate_valid_identifiers(nodes: dict[str, HyperNode]) -> None:
     from hypergraph.nodes.graph_node import GraphNode
 
     for node in nodes.values():
-        # Skip GraphNode - it uses graph name validation (allows hyphens)
+        # GraphNode uses graph name validation (allows hyphens, no path separators);
+        # with_name() does not re-check what the GraphNode constructor rejects
         if isinstance(node, GraphNode):
+            _validate_graph_name(node.name)
             continue
         if not node.name.isidentifier():
             raise GraphConfigError(
